@@ -136,17 +136,14 @@ Proof. exact fmt_idem_S1_refuted. Qed.
 Print Assumptions C20_idempotent_any_sort_refuted.
 
 (* ---- no crash ----
-   Full statement: fmt_node never panics.  FALSE (C20_no_panic_refuted: sortedSeqContents.Less indexes
-   Content[a+1] of an odd-length sequence element).  It holds under the same guard: *)
-Theorem C20_no_panic_partial : forall nonstr kind api srt n s p,
-  keyed_ok kind api p n = true -> exists n', fmt_node nonstr srt kind api s p n = Ok n'.
+   The formatter never panics: all nodes, all schemas and paths, any sort function.
+   (Before /repo commit d64b8e2 this was refuted — sortedSeqContents.Less indexed Content[a+1] of an
+   odd-length sequence element of a keyed whitelisted list; the guard `a+1 < len(Content)` removed the
+   only panic site of the model.) *)
+Theorem C20_no_panic : forall nonstr kind api srt n s p,
+  exists n', fmt_node nonstr srt kind api s p n = Ok n'.
 Proof. exact fmt_no_panic. Qed.
-Print Assumptions C20_no_panic_partial.
-
-Theorem C20_no_panic_refuted : forall nonstr, exists n,
-  wf_keys n = true /\ filter_doc nonstr isort SNil n = Panic.
-Proof. exact fmt_no_panic_refuted. Qed.
-Print Assumptions C20_no_panic_refuted.
+Print Assumptions C20_no_panic.
 
 (* ---- meaning ---- *)
 
